@@ -37,6 +37,7 @@ type Op struct {
 	In, Out  uint64 // logical ticks at entry and exit (Out == 0 while in progress)
 	Data     []byte // copy of the bytes handed over (Write/Writev)
 	Parts    int    // number of slices in a Writev
+	PartLens []int  // length of each slice
 	Err      error
 	Rejected bool  // the call was refused because the transport is closed or a fault was injected
 	Start    int   // offset of Data in the wire stream (accepted data only)
@@ -151,8 +152,10 @@ func (t *RecTransport) write(kind string, bufs [][]byte) (int64, error) {
 		op.Rejected = true
 	}
 	data := make([]byte, 0, n)
+	op.PartLens = make([]int, 0, len(bufs))
 	for _, b := range bufs {
 		data = append(data, b...)
+		op.PartLens = append(op.PartLens, len(b))
 	}
 	op.Data = data
 	op.Err = err
